@@ -202,7 +202,7 @@ def enum_specs(draw, prof=None):
     elif shape == "lots" and n >= 12:
         # code that switches strategy above some number of runs (16, 32, 64, ...)
         kwant = draw(st.integers(10, min(n, 40)))
-        big = [x for x in (63, 64, 65, 66, 100, 128, 129) if x <= n]
+        big = [x for x in (63, 64, 65, 66, 100, 128, 129, 140, 200, 255, 256, 257) if x <= n]
         if big and chance(draw, 0.5):
             kwant = draw(st.sampled_from(big))
     else:
